@@ -455,8 +455,17 @@ theorem exR_setup : SetupP exR prR w0r none 2 where
     intro j d hp
     unfold prR at hp
     split at hp
-    · next hj => subst hj; cases hp; decide
+    · next hj =>
+      subst hj; cases hp
+      exact ⟨by decide, by decide, by decide, Cache.Reach.step (Cache.Reach.refl 1) (by decide), by decide⟩
     · cases hp
+  ownEx := by
+    refine ⟨prR, fun _ _ h => h, ?_⟩
+    intro u d hu
+    unfold prR at hu
+    split at hu
+    · next hj => subst hj; cases hu; exact ⟨by decide, by decide, by decide⟩
+    · cases hu
   prodInj := by
     intro j j' d h1 h2
     unfold prR at h1 h2
@@ -483,12 +492,6 @@ theorem exR_setup : SetupP exR prR w0r none 2 where
       · exact Cache.Reach.step (Cache.Reach.refl 0) (by decide)
       · exact Cache.Reach.refl 1
       · exact absurd rfl hne
-    · cases hp
-  prodNotOut := by
-    intro j d hp
-    unfold prR at hp
-    split at hp
-    · next hj => subst hj; decide
     · cases hp
 
 theorem exR_run : ∃ s, Engine.Reach (engineGraph exR) ⟨1, some 0⟩ s ∧ s.coord = .returned false ∧ s.failed = [] ∧
